@@ -185,6 +185,12 @@ def check(run: Run, ctx) -> None:
             g.run_oracle(run, ctx, known, mod, "C07 on the real loader", CLASSES, quick=0.4, thorough=4.0)
         except ModuleNotFoundError:
             run.notes.append(f"{mod} not present yet")
+    g.run_corr(run, ctx, "vf.corr.client", "ClientGen (APIClient properties per tag group vs Pog.ClientGen)", quick=0.3, thorough=3.0)
+    g.run_oracle(run, ctx, g.Informational(known), "vf.corr.client", "client.py / mock_client.py skeletons on the real ClientVisitor / MocksEmitter",
+                 {k: (v if v in ['F64'] else '-' + v) for k, v in {"mock-groups-by-first-raw-tag": "F23", "mock-client-props-order": "F23", "mock-client-props-differ": "F23", "mock-tag-case-variants-collide": "F23",
+                  "mock-client-duplicate-argument": "F23", "mock-client-empty-init": "F31", "property-name-not-identifier": "F29", "client-syntax-error": "F29",
+                  "mock-client-syntax-error": "F29", "property-shadowed-by-method": "F64", "tag-client-unreachable": "F64", "property-named-like-instance-attribute": "F64",
+                  "api-client-construction-fails": "F64", "private-attr-collision": "F64", "duplicate-property-name": "F64", "mock-client-self-argument": "F64"}.items()}, quick=0.5, thorough=4.0)
     run.cov["rule"] = (run.cov.get("rule") or "") + ("[e2e] random documents (0-3 tags per operation, absent / duplicated / FastAPI-style operationIds) x {JSON, YAML block, YAML flow, "
                        "YAML with merge keys (<<: *anchor), YAML with unquoted integer status keys} x the 3 naming strategies generated one after the other in ONE process "
                        "(random order) -> each generated package imported in a fresh interpreter -> coroutine methods per tag client counted against the document's "
